@@ -20,7 +20,7 @@ META = {
     ),
     "assumptions": ["listener objects of the clone are located through the machine's listener registry (a private attribute) to check object identity; when unavailable only behaviour is compared"],
     "must_observe": ["clones", "events_executed", "other_instance_events", "other_instance_callbacks"],
-    "shard_timeout": {"quick": 300, "thorough": 3400},
+    "shard_timeout": {"quick": 900, "thorough": 3400},
 }
 
 PROFILE = {"n_states": (2, 5), "n_events": (1, 3), "extra_transitions": (1, 5), "p_multi_event": 0.2,
